@@ -97,6 +97,7 @@ Proof. exact (local_view_is_agglayer_view hash bev cev b_leaf b_dc tree start_bl
    the stored field, so every theorem of this file holds for such tables too. *)
 Theorem C02_inerror_prev_ler_fallback : forall l sy (top : row hash bev cev) rest,
   chain_ok hash bev cev b_leaf start_block start_ler root_of l sy (top :: rest) -> st top = InError ->
+  r_hasprev top = true \/ height top = 0 \/ rest <> [] ->       (* otherwise (base of a rebuilt table, no stored LER) the node refuses *)
   next_height_ler hash bev cev start_ler (top :: rest) (Some top) = Some (height top, prev top).
 Proof. exact (inerror_prev_ler hash bev cev b_leaf tree t_add start_block start_ler repr root_of t_add_repr t_add_root). Qed.
 
@@ -108,30 +109,51 @@ Proof.
            cert_type repr root_of).
 Qed.
 
-(* Third sentence: the settled certificates, read in height order, contain every bridge exit and every claim of the
-   blocks StartL2Block+1 .. (last block of the last settled certificate) exactly once and in chain order *)
+(* Third sentence: the settled certificates of the table, read in height order, contain every bridge exit and every claim
+   of the blocks (first block of the lowest row) .. (last block of the last settled certificate) exactly once and in
+   chain order. The lowest row is the first certificate unless the database was lost (C02_origin_run below): then the range
+   starts at StartL2Block+1. *)
 Theorem C02_settled_exactly_once : forall s : stateT, Inv s ->
-  concat (map r_exits (settled_rows (rows s))) = bridges_in (l2 s) (start_block + 1) (settled_to hash bev cev start_block (rows s)) /\
-  concat (map r_imported (settled_rows (rows s))) = claims_in (l2 s) (start_block + 1) (settled_to hash bev cev start_block (rows s)).
+  concat (map r_exits (settled_rows (rows s))) =
+    bridges_in (l2 s) (base_from hash bev cev start_block (rows s)) (settled_to hash bev cev start_block (rows s)) /\
+  concat (map r_imported (settled_rows (rows s))) =
+    claims_in (l2 s) (base_from hash bev cev start_block (rows s)) (settled_to hash bev cev start_block (rows s)).
 Proof. exact (settled_exactly_once hash bev cev b_leaf b_dc tree t_add start_block start_ler repr root_of t_add_repr t_add_root). Qed.
+Theorem C02_base_from_origin : forall l sy rs, chain_ok hash bev cev b_leaf start_block start_ler root_of l sy rs ->
+  origin hash bev cev rs -> base_from hash bev cev start_block rs = start_block + 1.
+Proof. exact (base_from_origin hash bev cev b_leaf start_block start_ler root_of). Qed.
+(* the table reaches down to height 0 after every restart-free schedule from an initial state *)
+Theorem C02_origin_run : forall (s0 : stateT) evs, Init s0 -> origin hash bev cev (rows (run s0 evs)).
+Proof.
+  exact (origin_run hash bev cev b_leaf b_dc tree t_add retry_immediately start_block start_ler require_events cert_type
+           repr root_of t_add_repr t_add_root).
+Qed.
 
 (* all three for every schedule *)
 Theorem C02_every_schedule : forall (s0 : stateT) evs e s' subs, Init s0 -> step (run s0 evs) e = (s', subs) ->
   (subs <> [] -> all_closed (agg (run s0 evs))) /\
   (subs = [] \/ exists sb rc, subs = [sb] /\ built_ok (tick_state (run s0 evs)) sb rc) /\
-  concat (map r_exits (settled_rows (rows s'))) = bridges_in (l2 s') (start_block + 1) (settled_to hash bev cev start_block (rows s')).
+  concat (map r_exits (settled_rows (rows s'))) = bridges_in (l2 s') (start_block + 1) (settled_to hash bev cev start_block (rows s')) /\
+  concat (map r_imported (settled_rows (rows s'))) = claims_in (l2 s') (start_block + 1) (settled_to hash bev cev start_block (rows s')).
 Proof.
   intros s0 evs e s' subs Hi Hs. pose proof (C02_reachable_Inv s0 evs Hi) as HI. split; [|split].
   - exact (C02_no_submission_while_undecided _ _ _ _ HI Hs).
   - destruct (C02_submissions_well_formed _ _ _ _ HI Hs) as [H|(sb & rc & H1 & H2 & _)]; [left; exact H|right; eauto].
-  - pose proof (C02_step_preserves_Inv _ e HI) as HI'. rewrite Hs in HI'. exact (proj1 (C02_settled_exactly_once _ HI')).
+  - pose proof (C02_step_preserves_Inv _ e HI) as HI'. pose proof (C02_origin_run s0 (evs ++ [e]) Hi) as Ho.
+    unfold AggsenderProtocol.run in Ho. rewrite fold_left_app in Ho. cbn [fold_left] in Ho.
+    change (fold_left _ evs s0) with (run s0 evs) in Ho. rewrite Hs in HI', Ho. cbn [fst] in HI', Ho.
+    destruct HI' as (Hh & Hcfg & Hc & Ha). rewrite <- (C02_base_from_origin _ _ _ Hc Ho).
+    exact (C02_settled_exactly_once _ (conj Hh (conj Hcfg (conj Hc Ha)))).
 Qed.
 
 (* ---- aggchain-prover flow: PARTIAL.
    Same invariant and consequences for the loop around build_fep (model of AggchainProverFlow.GetCertificateBuildParams: an
    InError certificate is resent with the same block range; the prover's end block is used only inside the requested
-   range; empty certificates allowed), for an ARBITRARY prover oracle. Partial because no correspondence run ties
-   build_fep to flow_aggchain_prover.go (optimistic mode, certificate-type switch and the prover request are not driven). *)
+   range; empty certificates allowed), for an ARBITRARY prover oracle and with or without a stored proof.
+   build_fep is tied to flow_aggchain_prover.go by the FEP stream of the harness (the REAL AggchainProverFlow with a
+   scripted prover: EndBlock = requested / shorter / outside the range / error; stored proof present), compared event
+   by event like the PP flow. Still partial: optimistic mode, a certificate in error of another certificate type, a
+   missing stored proof, maxL2BlockNumber and the injected-GER proofs are not driven. *)
 Notation step_fep prover hp :=
   (step_gen hash bev cev b_leaf b_dc tree t_add retry_immediately
             (build_fep hash bev cev b_dc tree start_block start_ler require_events cert_type prover hp)).
@@ -162,22 +184,32 @@ Proof.
 Qed.
 End C02.
 
-(* ---- process restarts: PARTIAL.
+(* ---- process restarts.
    Restart (same or lost certificate database), the start-up reconciliation and a crash between "accepted by the
-   Agglayer" and "row stored" are events of the EXECUTABLE model only (Model/AggsenderProtocol.v xrstep; the
-   reconciliation itself is Model/Reconcile.v recover, proved in C13). They are compared event by event with the real
-   code (new AggSender objects, real CheckInitialStatus iteration) and the certificates submitted after a recovery are
-   judged by spec_c02 / spec_c03 with the same naive references. What is proved: the theorems above hold from ANY state
-   satisfying Inv, so they cover every restart-free stretch that starts in such a state; a table the reconciliation
-   rebuilt with the certificate's own range and exit roots (C13_recovery_refines_nocrash, C13_metadata_range) is one,
-   with or without stored previous LER (C02_inerror_prev_ler_fallback). What is NOT proved (no theorem
-   C02_restart_preserves_Inv): that xrstep's restart events re-establish Inv - after a lost database the table holds
-   only the latest certificate, which the heights-from-0 chain of Inv does not describe. On a restart-free schedule
-   xrstep IS step: *)
+   Agglayer" and "row stored" are events of Model/AggsenderProtocol.v rstep (generic in payloads and tree, exit roots =
+   numbers); the reconciliation is Model/Reconcile.v recover (C13), not re-modelled. The executable instance xrstep is
+   compared event by event with the real code and spec_c02 / spec_c03 judge what is submitted after a recovery.
+   PROVED (below): Inv now also describes tables whose lowest row is not the first certificate (rows below absent) and
+   rows without stored previous LER; every theorem above holds from ANY such state. A restart on the SAME database
+   (no crash in flight) and a restart with the database LOST, with Agglayer headers carrying prev_local_exit_root,
+   lead from a state satisfying RInv to a state satisfying Inv, not refused - using C13's recover_consistent /
+   recover_insert_empty / recover_nothing / row_of_header_range for what the reconciliation returns.
+   PARTIAL, exact missing lemmas:
+   (1) view_agg_ok : RInv rs -> Reconcile.agg_ok (view_of (xr_info rs) (agg (xr_core rs))) - hypothesis Hview of both
+       theorems. It needs an Agglayer-side height invariant (newest first, heights never increase going back, the newest
+       certificate is above every settled one unless it is settled) that Inv, which ties the Agglayer to the local rows
+       only, does not carry once lower rows may be absent.
+   (2) rstep_preserves_RInv for RCore events (info_ok / head_ok / bounded are maintained by send, poll, new block) and
+       for RCrashTick (C13's recover_insert_next / recover_different_id give the store; the refused case needs RInv to
+       describe a node stuck in CheckInitialStatus). Without (2) the restart theorems are one-step statements.
+   (3) headers WITHOUT prev_local_exit_root: the rebuilt row has no stored LER; Inv tolerates it
+       (C02_inerror_prev_ler_fallback) but the round trip through Reconcile rows loses the (ghost) previous root.
+   Settled-exactly-once relative to the Agglayer's settled chain after a lost database is not stated: the Agglayer
+   model keeps only (id, height, status) per certificate. *)
 Example C02_restart_free_is_step : forall retry start ler aggprev (c : xstate) info (e : xevent),
   xrstep retry start ler aggprev (XR c info false) (RCore e) =
   (XR (fst (xstep retry start ler c e)) (info ++ info_of (snd (xstep retry start ler c e))) false, snd (xstep retry start ler c e)).
-Proof. intros. unfold xrstep. cbn [xr_recovering xr_core xr_info]. destruct e; destruct (xstep retry start ler c _); reflexivity. Qed.
+Proof. intros. unfold xrstep, rstep, xstep. cbn [xr_recovering xr_core xr_info]. destruct e; destruct (step _ _ _ _ _ _ _ _ _ _ _ _ c _); reflexivity. Qed.
 (* the executable restart events on a concrete run (toy leaves 11, 12): the first certificate is accepted but the process
    dies before storing it; the restart rebuilds the row from the Agglayer's header (no previous LER in it); the
    certificate goes InError; the replacement keeps height 0, first block 1 and the start LER *)
@@ -191,6 +223,57 @@ Example C02_nonvacuous_restart :
   map (fun r => (height r, cid r, st r, from r, to r, r_hasprev r)) (rows (xr_core s)) = [(0, 1, Pending, 1, 2, false)] /\
   xr_recovering s = false.
 Proof. vm_compute. repeat split. Qed.
+
+Section C02Restart.
+Variables bev cev : Type.
+Variable b_leaf : bev -> N.
+Variable b_dc : bev -> N.
+Variable tree : Type.
+Variable t_add : tree -> N -> tree * N.
+Variable start_block : N.
+Variable start_ler : N.
+Variable cert_type : N.
+Variable repr : tree -> list N.
+Variable root_of : list N -> N.
+Hypothesis t_add_repr : forall t x, repr (fst (t_add t x)) = repr t ++ [x].
+Hypothesis t_add_root : forall t x, snd (t_add t x) = root_of (repr t ++ [x]).
+(* RInv rs = Inv (xr_core rs), and: the Agglayer's record of every local certificate carries the row's range and exit
+   roots (info_ok); the newest certificate at the Agglayer is the top row's (head_ok: no crash in flight); block numbers
+   and heights below 2^63, ranges shorter than 2^32 blocks, every row stores its previous LER (bounded) *)
+Theorem C02_restart_lost_preserves_Inv : forall rs : rstate bev cev tree,
+  RInv bev cev b_leaf b_dc tree start_block start_ler cert_type repr root_of rs ->
+  Reconcile.agg_ok (view_of cert_type true (xr_info rs) (agg (xr_core rs))) ->
+  Inv N bev cev b_leaf b_dc tree start_block start_ler repr root_of (xr_core (recover_x bev cev tree cert_type true true rs)) /\
+  xr_recovering (recover_x bev cev tree cert_type true true rs) = false.
+Proof. exact (restart_lost_preserves_Inv bev cev b_leaf b_dc tree t_add start_block start_ler cert_type repr root_of t_add_repr t_add_root). Qed.
+Theorem C02_restart_kept_preserves_Inv : forall rs : rstate bev cev tree,
+  RInv bev cev b_leaf b_dc tree start_block start_ler cert_type repr root_of rs ->
+  Reconcile.agg_ok (view_of cert_type true (xr_info rs) (agg (xr_core rs))) ->
+  Inv N bev cev b_leaf b_dc tree start_block start_ler repr root_of (xr_core (recover_x bev cev tree cert_type true false rs)) /\
+  xr_recovering (recover_x bev cev tree cert_type true false rs) = false.
+Proof. exact (restart_kept_preserves_Inv bev cev b_leaf b_dc tree t_add start_block start_ler cert_type repr root_of t_add_repr t_add_root). Qed.
+End C02Restart.
+
+(* the hypotheses of the restart theorems are met by a concrete state: one block, one certificate pending at the Agglayer *)
+Example C02_nonvacuous_RInv :
+  let rs := XR (demo_run true demo_empty [NewBlock 0 [(0, 11); (1, 12)] [7]; EpochTick 0]) [XI 0 1 1 7 7112] false in
+  RInv (N * N) N snd fst (list N) 0 (demo_root []) 1 (fun l => l) demo_root rs /\
+  Reconcile.agg_ok (view_of 1 true (xr_info rs) (agg (xr_core rs))) /\
+  map (fun r => (height r, cid r, st r, from r, to r)) (rows (xr_core (recover_x (N * N) N (list N) 1 true true rs))) = [(0, 0, Pending, 1, 1)].
+Proof.
+  cbv zeta. split; [|split].
+  - split; [|split; [|split]].
+    + apply (reachable_Inv N (N * N) N snd fst (list N) (ref_add N demo_root) true 0 (demo_root []) true 1 (fun l => l) demo_root);
+        try (intros; reflexivity); exact demo_init.
+    + intros r Hr. vm_compute in Hr. destruct Hr as [<-|[]]. eexists. vm_compute. repeat split.
+    + vm_compute. reflexivity.
+    + split; [vm_compute; reflexivity|]. split; [vm_compute; reflexivity|]. intros r Hr. vm_compute in Hr. destruct Hr as [<-|[]].
+      vm_compute. repeat split.
+  - split.
+    + intros s Hs. vm_compute in Hs. discriminate.
+    + intros p Hp. vm_compute in Hp. inversion Hp; subst. vm_compute. split; [discriminate|reflexivity].
+  - vm_compute. reflexivity.
+Qed.
 
 (* ---- non-vacuity: the tree hypotheses are met by the reference tree for ANY root function; a concrete schedule
    (two deposits and a claim, certificate 0 goes InError, is replaced at once with the same height and first block,
@@ -228,6 +311,10 @@ Print Assumptions C02_local_view_is_agglayer_view.
 Print Assumptions C02_inerror_prev_ler_fallback.
 Print Assumptions C02_no_submission_while_undecided.
 Print Assumptions C02_settled_exactly_once.
+Print Assumptions C02_base_from_origin.
+Print Assumptions C02_origin_run.
+Print Assumptions C02_restart_lost_preserves_Inv.
+Print Assumptions C02_restart_kept_preserves_Inv.
 Print Assumptions C02_every_schedule.
 Print Assumptions C02_step_preserves_Inv_fep_partial.
 Print Assumptions C02_reachable_Inv_fep_partial.
